@@ -154,7 +154,7 @@ def main():
     except ImportError:
         pass
     # end to end through the REAL client: what reaches the upstream's socket is the mapped URL, character for character
-    for path, q in itertools.product(["/a%2Fb", "/x%3Fy", "/k%3Dv%26w", "/semi%3Bcolon", "/dots/%2e%2e/up", "/sp%20ace", "/pct%25", "/u%C3%A9", "/bad%FF", "/plain", "/a;b=1", "/~t/!$&'()*+,=:@"],
+    for path, q in itertools.product(["/a%2Fb", "/x%3Fy", "/k%3Dv%26w", "/semi%3Bcolon", "/dots/%2e%2e/up", "/sp%20ace", "/pct%25", "/u%C3%A9", "/bad%FF", "/plain", "/a;b=1", "/~t/!$&'()*+,=:@", "/public/../admin/secret.gmi", "/a/./b", "/../tenant-b/x", "/v1/../v2/items;id=3", "/trailing/..", "/x/."],
                                      ["", "?q=%26%3D", "?a=b&c=d", "?x%20y"]):
         url = "gemini://front.example" + path + q
         try:
